@@ -90,6 +90,11 @@ def run(mod, tier, seed, replay=None):
     prop = mod.PROP
     report = {}
     broken, fatal = proof_phase(mod, report)
+    if broken and hasattr(mod, "diagnose"):
+        try:
+            broken += mod.diagnose(report)
+        except Exception as e:       # a diagnosis aid only
+            broken.append("diagnose failed: %r" % (e,))
     known = core.open_findings(prop)
     violations = []        # (kind, text, replay_obj)
     known_seen = {}
